@@ -133,8 +133,10 @@ static Reg r_pj("tl_pj", [](const Args& A) {
 
 inline std::string fx(double v, int d) { char b[48]; std::snprintf(b, sizeof b, "%.*f", d, v); return b; }
 
-inline void generate(Rng& r, bool thorough) {
-  int N = thorough ? 4000 : 500;
+inline void generate(Rng& r, bool thorough, int K = 1) {
+  auto Q = [&](long v) { return std::max<long>(1, v / K); };   // K slices: the orchestrating generate() runs the parts round-robin
+
+  int N = int(Q(thorough ? 4000 : 500));
   const double W = 1 / 298.257223563;
   for (int i = 0; i < N; ++i) {
     double a = 6378137, f = r.irange(0, 3) ? W : r.pick(std::vector<double>{0, 0.01, -0.01, 1 / 150.0}); int exact = r.irange(0, 4) == 0;
